@@ -41,6 +41,8 @@ KINDS_QUICK = [
     ("nomatch", "bar(5);", LF, 0, 0),
     ("two_line_match", "foo(\n  6);", LF, 1, 1),
     ("multi_args", "foo(1, 'é'); foo();", LF, 0, 2),
+    # a match that spans three lines, the middle one completely empty
+    ("match_with_blank_line", "foo(\n\n  7);", LF, 1, 1),
     # a lone carriage return inside the line, before the match: it is one character of the
     # LF-delimited line, not a line terminator
     ("lone_cr_before_match", "x = `a\rb`; foo(10);", LF, 1, 1),
